@@ -94,7 +94,17 @@ Select(s, w, a, amt, H, m, nchg) ==
   ELSE SelLoop(s, w, keys, coins, amt, nchg, Len(keys) + 1)
 
 \* ------------------------------------------------------------- bookkeeping
-Log(e) == hist' = Append(hist, e)
+\* the event carries how much the model's step changed (eff): 0 = nothing (a refused or idle step),
+\* -1 = only the chain / pool / messages, n = number of output and log records of the wallets that
+\* were added, removed or changed (capped at 4).  A refused step, a step touching one record and a step
+\* touching several are different things to exercise; used when behaviours are selected for replay.
+ChangedRecs(f, g) == Cardinality({k \in (DOMAIN f) \cup (DOMAIN g) : k \notin DOMAIN f \/ k \notin DOMAIN g \/ f[k] # g[k]})
+EffSize ==
+  IF st' = st THEN 0
+  ELSE LET WW == (DOMAIN st.w) \cap (DOMAIN st'.w)
+           n == SumF([x \in WW |-> ChangedRecs(st.w[x].outs, st'.w[x].outs) + ChangedRecs(st.w[x].txs, st'.w[x].txs)], WW)
+       IN IF n = 0 THEN -1 ELSE IF n > 4 THEN 4 ELSE n
+Log(e) == hist' = Append(hist, [f \in (DOMAIN e) \cup {"eff"} |-> IF f = "eff" THEN EffSize ELSE e[f]])
 
 \* ------------------------------------------------------------------ actions
 \* every action: st' from the step operator, hv' maintained as in the trace spec,
@@ -349,7 +359,8 @@ ChkA(c, name) == IF c THEN TRUE ELSE CexA(name)
 
 Prop_Replay ==
   [][Stepped /\ Ev.ev \in {"lock", "receive", "finalize"} =>
-       ChkA(ReplayNoEffect(st, st', hv, Ev.w, Ev.ev, Ev.sl, "ok"), "ReplayNoEffect")]_vars
+       ChkA(ReplayNoEffectA(st, st', hv, Ev.w, Ev.ev, Ev.sl, "ok",
+                            IF Ev.ev = "receive" THEN AcctOf(st, Ev.w, Ev.dest) ELSE ""), "ReplayNoEffect")]_vars
 Prop_SelectAvoidsReserved ==
   [][Stepped /\ Ev.ev \in {"init_send", "process_invoice"} =>
        ChkA(SelectAvoidsReserved(st, st', Ev.w, Ev.sl), "SelectAvoidsReserved")]_vars
